@@ -11,7 +11,7 @@
 // (and marks the lane dirty exactly when DIRTY is set); when a handler fails nothing further of it, or of the handlers it
 // interrupted, is executed and the failure is reported; no handler is stepped after it completed.
 use super::*;
-use crate::event_handler::{HandlerAction, Modification, StepResult};
+use crate::event_handler::{HandlerAction, HandlerActionExt, Modification, Sequentially, StepResult};
 use crate::test_context::dummy_context;
 use std::cell::RefCell;
 use std::rc::Rc;
@@ -168,6 +168,82 @@ fn run_case(top: &[Step], cons: &[Option<Vec<Step>>; 3]) -> Result<(), String> {
     Ok(())
 }
 
+// ---- the real sequencing combinators over the same step programs (property C06: "... and_then / followed_by ...")
+#[derive(Clone, Copy, Debug)]
+enum Comb {
+    FollowedBy,
+    AndThen,
+    MapThenFollowedBy,
+    Sequentially,
+    NestedLeft,  // (p1.followed_by(p2)).and_then(|_| p3)
+    NestedRight, // p1.followed_by(p2.followed_by(p3))
+}
+fn run_combined(comb: Comb, parts: &[Vec<Step>; 3], cons: &[Option<Vec<Step>>; 3]) -> Result<(), String> {
+    let trace: Trace = Default::default();
+    let agent = Agent { trace: trace.clone() };
+    let lifecycle = Lifecycle { consequences: cons.clone(), fired: RefCell::new([0; 3]) };
+    let items: HashMap<u64, Text> = (0..3u64).map(|i| (i, Text::new(NAMES[i as usize]))).collect();
+    let uri = RouteUri::try_from("/node").expect("uri");
+    let route_params = HashMap::new();
+    let config = AgentConfig::DEFAULT;
+    let meta = AgentMetadata::new(&uri, &route_params, &config);
+    let mut join_lane_init = HashMap::new();
+    let mut command_buffer = BytesMut::new();
+    let mut action_context = dummy_context(&mut join_lane_init, &mut command_buffer);
+    let mut collected: HashSet<u64> = HashSet::new();
+    let mk = |i: usize| Prog { name: format!("p{}", i + 1), steps: parts[i].clone(), at: 0 };
+    let (p1, p2, p3) = (mk(0), mk(1), mk(2));
+    let n_parts;
+    let result = match comb {
+        Comb::FollowedBy => {
+            n_parts = 2;
+            run_handler(&mut action_context, meta, &agent, &lifecycle, p1.followed_by(p2), &items, &mut collected)
+        }
+        Comb::AndThen => {
+            n_parts = 2;
+            run_handler(&mut action_context, meta, &agent, &lifecycle, p1.and_then(move |_: ()| p2), &items, &mut collected)
+        }
+        Comb::MapThenFollowedBy => {
+            n_parts = 2;
+            run_handler(&mut action_context, meta, &agent, &lifecycle, p1.map(|_: ()| 7).followed_by(p2), &items, &mut collected)
+        }
+        Comb::Sequentially => {
+            n_parts = 3;
+            run_handler(&mut action_context, meta, &agent, &lifecycle, Sequentially::new(vec![p1, p2, p3]), &items, &mut collected)
+        }
+        Comb::NestedLeft => {
+            n_parts = 3;
+            run_handler(&mut action_context, meta, &agent, &lifecycle, p1.followed_by(p2).and_then(move |_: ()| p3), &items, &mut collected)
+        }
+        Comb::NestedRight => {
+            n_parts = 3;
+            run_handler(&mut action_context, meta, &agent, &lifecycle, p1.followed_by(p2.followed_by(p3)), &items, &mut collected)
+        }
+    };
+    // reference: the parts run one after the other, each depth-first; a failure stops everything
+    let mut exp_trace = vec![];
+    let mut exp_dirty = HashSet::new();
+    let mut fired = [0usize; 3];
+    let mut exp_ok = true;
+    for i in 0..n_parts {
+        if !reference(&format!("p{}", i + 1), &parts[i], cons, &mut fired, &mut exp_trace, &mut exp_dirty) {
+            exp_ok = false;
+            break;
+        }
+    }
+    let got_trace = trace.borrow().clone();
+    if got_trace != exp_trace {
+        return Err(format!("execution order was {:?}, sequential depth-first order is {:?}", got_trace, exp_trace));
+    }
+    if result.is_ok() != exp_ok {
+        return Err(format!("run_handler returned {:?} but the reference {}", result.map_err(|e| e.to_string()), if exp_ok { "succeeds" } else { "fails" }));
+    }
+    if collected != exp_dirty {
+        return Err(format!("lanes marked dirty were {:?}, expected {:?}", collected, exp_dirty));
+    }
+    Ok(())
+}
+
 #[test]
 fn run_handler_contract() {
     let depth: usize = std::env::var("VERIF_BX_DEPTH").ok().and_then(|s| s.parse().ok()).unwrap_or(3);
@@ -197,12 +273,50 @@ fn run_handler_contract() {
             }
         }
     }
+    // combinators: every triple of non-empty programs of up to 2 steps over {nop, fail, change a, change b}, consequences on_a in
+    // {none, [change c], [nop, change c], [fail]}, on_b in {none, [nop]}, on_c = [nop]
+    let parts_alpha = programs(&[0, 1], 2, &both);
+    let cons_a2: Vec<Option<Vec<Step>>> = vec![None, Some(vec![Step::Touch(2, Kind::Both)]), Some(vec![Step::Nop, Step::Touch(2, Kind::Both)]), Some(vec![Step::Fail])];
+    let cons_b2: Vec<Option<Vec<Step>>> = vec![None, Some(vec![Step::Nop])];
+    let mut comb_evals = 0usize;
+    let mut comb_failure: Option<String> = None;
+    'combs: for comb in [Comb::FollowedBy, Comb::AndThen, Comb::MapThenFollowedBy, Comb::Sequentially, Comb::NestedLeft, Comb::NestedRight] {
+        let three = matches!(comb, Comb::Sequentially | Comb::NestedLeft | Comb::NestedRight);
+        for p1 in &parts_alpha {
+            for p2 in &parts_alpha {
+                let thirds: Vec<Vec<Step>> = if three { parts_alpha.iter().filter(|p| p.len() == 1).cloned().collect() } else { vec![vec![Step::Nop]] };
+                for p3 in &thirds {
+                    for a in &cons_a2 {
+                        for b in &cons_b2 {
+                            comb_evals += 1;
+                            let cons = [a.clone(), b.clone(), Some(vec![Step::Nop])];
+                            if let Err(e) = run_combined(comb, &[p1.clone(), p2.clone(), p3.clone()], &cons) {
+                                comb_failure = Some(format!("{:?} p1={:?} p2={:?} p3={:?} on_a={:?} on_b={:?} => {}", comb, p1, p2, p3, a, b, e));
+                                break 'combs;
+                            }
+                        }
+                    }
+                }
+            }
+        }
+    }
     println!("BX-SAMPLE depth={depth}: {} top-level programs x {} x {} x {} consequence programs; e.g. top=[Touch(a), Nop] on_a=[Touch(b), Fail] on_b=[Nop]", tops.len(), cons_a.len(), cons_b.len(), cons_c.len());
+    let mut failed = false;
     match failure {
         None => println!("BX-OBL run_handler::depth_first_exactly_once_and_failure_stops_everything ok evaluations={evaluations} distinct={evaluations}"),
         Some(w) => {
             println!("BX-FAIL run_handler::depth_first_exactly_once_and_failure_stops_everything witness={w}");
-            panic!("contract violated");
+            failed = true;
         }
+    }
+    match comb_failure {
+        None => println!("BX-OBL run_handler::sequencing_combinators_pass_on_every_change_in_order ok evaluations={comb_evals} distinct={comb_evals}"),
+        Some(w) => {
+            println!("BX-FAIL run_handler::sequencing_combinators_pass_on_every_change_in_order witness={w}");
+            failed = true;
+        }
+    }
+    if failed {
+        panic!("contract violated");
     }
 }
